@@ -3,13 +3,16 @@
    even, on real numbers -- the specification against which Flocq's own IEEE-754 operations
    (Binary.Bdiv, binary_normalize) are proved.  Shown here: the model's static_cast<double>
    ([to_double]) is that rounding of the integer, and the model's quotient ([div_double]) is that
-   rounding of the exact real quotient (operands below 2^64: normal range).  printf's %.<p>f
-   ([fixed_scaled]) has no IEEE counterpart: that glibc prints the exact binary value correctly
-   rounded (to nearest even) stays an assumption tested by the correspondence run.
+   rounding of the exact real quotient (operands below 2^64: normal range); then, at bit level, that
+   they are the values of Flocq's IEEE-754 operations [binary_normalize] (integer -> binary64) and
+   [Bdiv] on [binary_float 53 1024] (finite results), and that the model's test on the double is
+   [Bltb].  printf's %.<p>f: [dec_fix] is the specification (x rounded to the nearest multiple of
+   10^-p, ties to even = round radix10 (FIX_exp (-p)) ZnearestE); the model's [fixed_scaled] is
+   proved to be it; that glibc implements it is tested by the correspondence run.
    These statements are about real numbers: they depend on the axioms of Coq's Reals (printed by
    Print Assumptions in Properties_C17.v and named in the trusted base).  Nothing else in C17 does. *)
 From Coq Require Import List ZArith Reals Lia Lra.
-From Flocq Require Import Core.
+From Flocq Require Import Core BinarySingleNaN.
 From Muduo Require Import C17_Model C17_Units.
 Local Open Scope Z_scope.
 
@@ -150,6 +153,144 @@ Lemma divisors_binary64 :
   forallb divisor_exact Gen_C17.si_ladder = true /\ forallb divisor_exact Gen_C17.iec_ladder = true.
 Proof. vm_compute. split; reflexivity. Qed.
 
+(* ---- bit-level binary64: Flocq's IEEE-754 operations --------------------------------------- *)
+
+Definition p53 : Prec_gt_0 53 := eq_refl.
+Definition p53_1024 : Prec_lt_emax 53 1024 := eq_refl.
+Definition binary64 : Type := binary_float 53 1024.
+
+(* static_cast<double>(n): the integer n * 2^0 normalised to binary64, to nearest even *)
+Definition b64_of_Z (n : Z) : binary64 := binary_normalize 53 1024 p53 p53_1024 mode_NE n 0 false.
+(* operator/ on doubles *)
+Definition b64_div (x y : binary64) : binary64 := @Bdiv 53 1024 p53 p53_1024 mode_NE x y.
+
+Lemma rnd64_is_spec x : round radix2 (SpecFloat.fexp 53 1024) (round_mode mode_NE) x = rnd64 x.
+Proof. reflexivity. Qed.
+
+Lemma rnd64_bound x : (0 <= x <= bpow radix2 64)%R -> (Rabs (rnd64 x) < bpow radix2 1024)%R.
+Proof.
+  intros [H0 H1]. unfold rnd64.
+  assert (V : Valid_exp b64) by (unfold b64; apply FLT_exp_valid; reflexivity).
+  assert (L : (0 <= round radix2 b64 ZnearestE x)%R).
+  { rewrite <- (round_0 radix2 b64 ZnearestE). apply round_le; [exact V|apply valid_rnd_N|exact H0]. }
+  assert (U : (round radix2 b64 ZnearestE x <= bpow radix2 64)%R).
+  { rewrite <- (round_generic radix2 b64 ZnearestE (bpow radix2 64)).
+    - apply round_le; [exact V|apply valid_rnd_N|exact H1].
+    - apply generic_format_bpow. unfold b64, FLT_exp. lia. }
+  rewrite Rabs_pos_eq by exact L.
+  apply Rle_lt_trans with (1 := U). apply bpow_lt. lia.
+Qed.
+
+Theorem b64_of_Z_correct n : 0 <= n < 2 ^ 64 ->
+  B2R (b64_of_Z n) = IZR (to_double n) /\ is_finite (b64_of_Z n) = true.
+Proof.
+  intros Hn. unfold b64_of_Z.
+  pose proof (binary_normalize_correct 53 1024 p53 p53_1024 mode_NE n 0 false) as H.
+  cbv zeta in H. rewrite rnd64_is_spec in H.
+  assert (E : F2R (Float radix2 n 0) = IZR n) by (unfold F2R; cbn [Fnum Fexp bpow]; lra).
+  rewrite E in H. rewrite Rlt_bool_true in H.
+  - destruct H as [H1 [H2 _]]. rewrite to_double_is_round by lia. split; assumption.
+  - apply rnd64_bound. split; [apply IZR_le; lia|].
+    change (bpow radix2 64) with (IZR (2 ^ 64)). apply IZR_le. lia.
+Qed.
+
+Theorem b64_div_correct n d m e : 0 < n < 2 ^ 63 -> 0 < d < 2 ^ 64 -> to_double d = d ->
+  div_double (to_double n) d = (m, e) ->
+  B2R (b64_div (b64_of_Z n) (b64_of_Z d)) = b64_value m e /\
+  is_finite (b64_div (b64_of_Z n) (b64_of_Z d)) = true.
+Proof.
+  intros Hn Hd Ed E.
+  destruct (b64_of_Z_correct n ltac:(lia)) as [Rn Fn]. destruct (b64_of_Z_correct d ltac:(lia)) as [Rd Fd].
+  rewrite Ed in Rd.
+  assert (Dpos : (0 < IZR d)%R) by (apply IZR_lt; lia).
+  pose proof (Bdiv_correct 53 1024 p53 p53_1024 mode_NE (b64_of_Z n) (b64_of_Z d)) as H.
+  rewrite Rd in H. specialize (H ltac:(lra)). rewrite rnd64_is_spec, Rn in H.
+  pose proof (to_double_mono 1 n ltac:(lia)) as H1. pose proof (to_double_mono n (2 ^ 63) ltac:(lia)) as H2.
+  change (to_double 1) with 1 in H1.
+  assert (E63 : to_double (2 ^ 63) = 2 ^ 63) by (vm_compute; reflexivity). rewrite E63 in H2.
+  rewrite Rlt_bool_true in H.
+  - destruct H as [Hv [Hf _]]. unfold b64_div. split; [|rewrite Hf; exact Fn].
+    rewrite Hv. symmetry. unfold b64_value. apply div_double_is_round; [lia|lia|exact E].
+  - apply rnd64_bound.
+    assert (Apos : (1 <= IZR (to_double n))%R) by (apply IZR_le; lia).
+    assert (Ale : (IZR (to_double n) <= bpow radix2 64)%R).
+    { change (bpow radix2 64) with (IZR (2 ^ 64)). apply IZR_le. lia. }
+    assert (D1 : (1 <= IZR d)%R) by (apply IZR_le; lia).
+    split.
+    + apply Rmult_le_pos; [lra|]. apply Rlt_le, Rinv_0_lt_compat. lra.
+    + apply Rle_trans with (2 := Ale). apply (Rmult_le_reg_r (IZR d)); [lra|].
+      unfold Rdiv. rewrite Rmult_assoc, Rinv_l, Rmult_1_r by lra.
+      rewrite <- (Rmult_1_r (IZR (to_double n))) at 1. apply Rmult_le_compat_l; lra.
+Qed.
+
+
+(* `n < X` on doubles, X a finite double with exact value num/den: the model's OnDouble test *)
+Theorem b64_lt_correct n (y : binary64) num den : 0 <= n < 2 ^ 64 -> 0 < den ->
+  is_finite y = true -> B2R y = (IZR num / IZR den)%R ->
+  Bltb (b64_of_Z n) y = (to_double n * den <? num).
+Proof.
+  intros Hn Hd Fy Ry. destruct (b64_of_Z_correct n Hn) as [Rn Fn].
+  rewrite Bltb_correct by assumption. rewrite Rn, Ry.
+  assert (HD : (0 < IZR den)%R) by (apply IZR_lt; exact Hd).
+  destruct (Z.ltb_spec (to_double n * den) num) as [L|G].
+  - apply Rlt_bool_true. apply (Rmult_lt_reg_r (IZR den)); [exact HD|].
+    unfold Rdiv. rewrite Rmult_assoc, Rinv_l, Rmult_1_r by lra. rewrite <- mult_IZR. apply IZR_lt. exact L.
+  - apply Rlt_bool_false. apply (Rmult_le_reg_r (IZR den)); [exact HD|].
+    unfold Rdiv. rewrite Rmult_assoc, Rinv_l, Rmult_1_r by lra. rewrite <- mult_IZR. apply IZR_le. exact G.
+Qed.
+
+(* Flocq's ZnearestE (a notation): the nearest integer, ties to the even one *)
+Definition nearest_even : R -> Z := ZnearestE.
+
+(* ---- printf "%.<p>f" of a binary64: the specification ---------------------------------------- *)
+
+Definition radix10 : radix := Build_radix 10 eq_refl.
+(* x rounded to the nearest multiple of 10^-p, ties to the even multiple: the decimal fixed-point
+   number a correctly rounding printf prints for %.<p>f in round-to-nearest mode (C11 7.21.6.1
+   with IEC 60559 Annex F.5: the result is the exact value correctly rounded) *)
+Definition dec_fix (p : Z) (x : R) : R := round radix10 (FIX_exp (- p)) ZnearestE x.
+
+Lemma pow10_bpow p : 0 <= p -> IZR (10 ^ p) = bpow radix10 p.
+Proof. intros H. rewrite <- IZR_Zpower by exact H. reflexivity. Qed.
+
+Theorem fixed_scaled_is_round p m e : 0 <= p ->
+  fixed_scaled p (m, e) = ZnearestE (b64_value m e * IZR (10 ^ p)) /\
+  dec_fix p (b64_value m e) = F2R (Float radix10 (fixed_scaled p (m, e)) (- p)).
+Proof.
+  intros Hp.
+  assert (A : fixed_scaled p (m, e) = ZnearestE (b64_value m e * IZR (10 ^ p))).
+  { rewrite b64_value_eq. unfold fixed_scaled. destruct (Z.leb_spec 0 e) as [He|He].
+    - rewrite <- pow2_bpow by exact He. rewrite <- !mult_IZR, (@Zrnd_IZR ZnearestE (valid_rnd_N _)). ring.
+    - assert (HP : 0 < 2 ^ (- e)) by (apply Z.pow_pos_nonneg; lia).
+      rewrite <- (ZnearestE_rne _ _ HP). f_equal.
+      rewrite mult_IZR, pow2_bpow by lia. rewrite bpow_opp.
+      pose proof (bpow_gt_0 radix2 e). unfold Rdiv. rewrite Rinv_inv. ring. }
+  split; [exact A|].
+  unfold dec_fix, round, cexp, scaled_mantissa, cexp, FIX_exp. rewrite Z.opp_involutive.
+  rewrite <- pow10_bpow by exact Hp. rewrite <- A. reflexivity.
+Qed.
+
+
+(* ---- everything in sequence: what formatSI / formatIEC print on a rung with a unit ---------- *)
+(* x = (double)n / d computed by Flocq's IEEE-754 binary64 operations; the characters in front of
+   the unit are the decimal numeral, with exactly p decimals, of x correctly rounded to p decimals
+   (nearest, ties to even) *)
+Theorem render_is_ieee_printf n p d u : 0 < n < 2 ^ 63 -> 0 <= p -> 0 < d < 2 ^ 64 -> to_double d = d ->
+  let x := B2R (b64_div (b64_of_Z n) (b64_of_Z d)) in
+  exists k body, render (Gen_C17.RFix p d u) n = body ++ u /\ fixed_numeral body p k /\
+    k = ZnearestE (x * IZR (10 ^ p)) /\ dec_fix p x = F2R (Float radix10 k (- p)).
+Proof.
+  intros Hn Hp Hd Ed x.
+  destruct (div_double (to_double n) d) as [m e] eqn:E.
+  destruct (b64_div_correct n d m e Hn Hd Ed E) as [Hx _]. fold x in Hx.
+  destruct (fixed_scaled_is_round p m e Hp) as [A B].
+  exists (fixed_scaled p (m, e)), (fixed_text p (m, e)).
+  split; [cbn [render]; rewrite E; reflexivity|]. split.
+  - apply fixed_text_numeral; [exact Hp|].
+    pose proof (scaled_nonneg p d n Hp ltac:(lia) ltac:(lia)) as K. unfold scaled in K. rewrite E in K. exact K.
+  - rewrite Hx. split; [exact A|exact B].
+Qed.
+
 Lemma binary64_semantics :
   (forall n, 0 <= n -> IZR (to_double n) = rnd64 (IZR n)) /\
   (forall a b m e, 0 < a < 2 ^ 64 -> 0 < b < 2 ^ 64 -> div_double a b = (m, e) ->
@@ -160,3 +301,25 @@ Lemma binary64_semantics :
 Proof.
   exact (conj to_double_is_round (conj div_double_is_round (conj quotient_is_binary64 divisors_binary64))).
 Qed.
+
+Lemma ieee754_bit_level :
+  (forall n, 0 <= n < 2 ^ 64 ->
+     B2R (b64_of_Z n) = IZR (to_double n) /\ is_finite (b64_of_Z n) = true) /\
+  (forall n d m e, 0 < n < 2 ^ 63 -> 0 < d < 2 ^ 64 -> to_double d = d ->
+     div_double (to_double n) d = (m, e) ->
+     B2R (b64_div (b64_of_Z n) (b64_of_Z d)) = b64_value m e /\
+     is_finite (b64_div (b64_of_Z n) (b64_of_Z d)) = true) /\
+  (forall n (y : binary64) num den, 0 <= n < 2 ^ 64 -> 0 < den ->
+     is_finite y = true -> B2R y = (IZR num / IZR den)%R ->
+     Bltb (b64_of_Z n) y = (to_double n * den <? num)).
+Proof. exact (conj b64_of_Z_correct (conj b64_div_correct b64_lt_correct)). Qed.
+
+Lemma printf_fixed_spec :
+  (forall p m e, 0 <= p ->
+     fixed_scaled p (m, e) = ZnearestE (b64_value m e * IZR (10 ^ p)) /\
+     dec_fix p (b64_value m e) = F2R (Float radix10 (fixed_scaled p (m, e)) (- p))) /\
+  (forall n p d u, 0 < n < 2 ^ 63 -> 0 <= p -> 0 < d < 2 ^ 64 -> to_double d = d ->
+     let x := B2R (b64_div (b64_of_Z n) (b64_of_Z d)) in
+     exists k body, render (Gen_C17.RFix p d u) n = body ++ u /\ fixed_numeral body p k /\
+       k = ZnearestE (x * IZR (10 ^ p)) /\ dec_fix p x = F2R (Float radix10 k (- p))).
+Proof. exact (conj fixed_scaled_is_round render_is_ieee_printf). Qed.
